@@ -15,12 +15,13 @@ one() {
     o=$(cd /verif && VERIF_REPO=$d VERIF_OUT_DIR=$d/_out timeout 1500 ./check $p 2>&1 | grep -v '^WARNING'); rc=$?
     rc=$(cd /verif && echo "$o" | grep -q '^VIOLATION' && echo 1 || (echo "$o" | grep -q 'CHECKER-ERROR\|VACUITY' && echo 3 || (echo "$o" | grep -q UNDECIDED && echo 2 || echo 0)))
     nf=$(echo "$o" | grep '^VIOLATION' | grep -c 'no-failing-input-found')
-    line="$line $p=$rc$([ "$nf" -gt 0 ] && echo n)"
+    ce=$(echo "$o" | grep -c 'CHECKER-ERROR')
+    line="$line $p=$rc$([ "$nf" -gt 0 ] && echo n)$([ "$rc" = 1 ] && [ "$ce" -gt 0 ] && echo b)"
     echo "$o" > $out/$seed.$p.log
   done
   echo "$line" >> $out/matrix.txt
   rm -rf $d
 }
 export -f one
-for s in $seeds; do echo $s; done | xargs -P 5 -I{} bash -c "one {} $out \"$ids\""
+for s in $seeds; do echo $s; done | xargs -P 4 -I{} bash -c "one {} $out \"$ids\""
 sort $out/matrix.txt
